@@ -61,6 +61,11 @@ func (r *round2) StoreBroadcastMessage(msg round.Message) error {
 		return fmt.Errorf("commitment: %w", err)
 	}
 
+	// the polynomial must have the agreed degree: otherwise the shares cannot be combined
+	if body.Phi_i.Degree() != r.threshold {
+		return fmt.Errorf("party %s sent a polynomial of degree %d, expected %d", from, body.Phi_i.Degree(), r.threshold)
+	}
+
 	// These steps come from Figure 1, Round 1 of the Frost paper
 
 	// 5. "Upon receiving ϕₗ, σₗ from participants 1 ⩽ l ⩽ n, participant
